@@ -111,6 +111,8 @@ class P(Prop):
                     cs = [rng.choice([rng.uniform(-3, 3), rng.choice([1.0, -1.0]) * rng.uniform(0.86, 0.99) * 1.7976931348623157e308, 0.0, 2.0 ** rng.randint(-900, 900)])
                           for _ in range(k + 1)]
                 cs = [c if (c == 0 or abs(c) >= 2.0 ** -1000) else 0.0 for c in cs]
+                # ... and away from the very top of the range: (i+1) * round(c/(i+1)) may round up past f64::MAX for |c| within an ulp of it
+                cs = [c if abs(c) <= 0.99 * 1.7976931348623157e308 else 0.99 * c for c in cs]
                 q = [rng.choice([0.0, 2.5])] + [cs[i] / float(i + 1) for i in range(k + 1)]
                 c_ = K.kernel_case("Poly%d::derivative" % (k + 1), q, cls="roundtrip/" + st)
                 c_["meta"]["orig"] = [C.bits(c) for c in cs]
@@ -134,6 +136,9 @@ class P(Prop):
         if meth == "derivative":
             orig = case.get("meta", {}).get("orig")
             if not orig:
+                return None
+            # the arguments must BE the correctly rounded quotients of the recorded polynomial (a shrunk or edited case is not a round trip)
+            if len(args) != len(orig) + 1 or any(C.bits(C.fl(ob) / float(i + 1)) != args[i + 1] for i, ob in enumerate(orig)):
                 return None
             for i, ob in enumerate(orig):
                 if not finite(r[i]):
